@@ -23,6 +23,7 @@ package storage
 //@   ensures [foreign-refused] let G == old(GhostOf(*txn, *ghost)) in G != 0 && G != kvval(tx) && !(fork && GhostException(tx)) ==> err != nil
 //@   ensures [frame] forall k mathint :: {badger.kvget(*txn, k)} k != GK(*ghost) ==> badger.kvget(*txn, k) == old(badger.kvget(*txn, k))
 //@   ensures [fail] err != nil ==> *txn == old(*txn)
+//@   ensures [db] badger.txndb(*txn) == old(badger.txndb(*txn)) -- the transaction stays attached to its DB (needed by NewTransaction/Commit style callers: C15)
 
 //@ -- GhostStep(a, b, tx): only GHOST entries change, and only from "unbound" to "bound to tx": an existing binding is never overwritten.
 //@ spec GhostStep(a badger.Txn, b badger.Txn, tx crypto.Hash) bool =
@@ -69,31 +70,37 @@ package storage
 //@   ensures forall k mathint :: {badger.kvget(*txn, k)} keykind(k) == 2 ==> badger.kvget(*txn, k) == old(badger.kvget(*txn, k))
 //@   ensures [c15-frame] forall k mathint :: {badger.kvget(*txn, k)} keykind(k) != 14 ==> badger.kvget(*txn, k) == old(badger.kvget(*txn, k)) -- C15: its single Set writes a key of kind 14 (see zz_contracts_c15_verif.go)
 //@   ensures [c15-fail] err != nil ==> *txn == old(*txn) -- every error return precedes the Set, or is the Set's own error
+//@   ensures [db] badger.txndb(*txn) == old(badger.txndb(*txn)) -- the transaction stays attached to its DB (needed by NewTransaction/Commit style callers: C15)
 //@ assume func writeNodeCancel
 //@   modifies *txn
 //@   ensures forall k mathint :: {badger.kvget(*txn, k)} keykind(k) == 2 ==> badger.kvget(*txn, k) == old(badger.kvget(*txn, k))
 //@   ensures [c15-frame] forall k mathint :: {badger.kvget(*txn, k)} keykind(k) != 14 ==> badger.kvget(*txn, k) == old(badger.kvget(*txn, k)) -- C15: its single Set writes a key of kind 14 (see zz_contracts_c15_verif.go)
 //@   ensures [c15-fail] err != nil ==> *txn == old(*txn) -- every error return precedes the Set, or is the Set's own error
+//@   ensures [db] badger.txndb(*txn) == old(badger.txndb(*txn)) -- the transaction stays attached to its DB (needed by NewTransaction/Commit style callers: C15)
 //@ assume func writeNodeAccept
 //@   modifies *txn
 //@   ensures forall k mathint :: {badger.kvget(*txn, k)} keykind(k) == 2 ==> badger.kvget(*txn, k) == old(badger.kvget(*txn, k))
 //@   ensures [c15-frame] forall k mathint :: {badger.kvget(*txn, k)} keykind(k) != 14 ==> badger.kvget(*txn, k) == old(badger.kvget(*txn, k)) -- C15: its single Set writes a key of kind 14 (see zz_contracts_c15_verif.go)
 //@   ensures [c15-fail] err != nil ==> *txn == old(*txn) -- every error return precedes the Set, or is the Set's own error
+//@   ensures [db] badger.txndb(*txn) == old(badger.txndb(*txn)) -- the transaction stays attached to its DB (needed by NewTransaction/Commit style callers: C15)
 //@ assume func writeNodeRemove
 //@   modifies *txn
 //@   ensures forall k mathint :: {badger.kvget(*txn, k)} keykind(k) == 2 ==> badger.kvget(*txn, k) == old(badger.kvget(*txn, k))
 //@   ensures [c15-frame] forall k mathint :: {badger.kvget(*txn, k)} keykind(k) != 14 ==> badger.kvget(*txn, k) == old(badger.kvget(*txn, k)) -- C15: its single Set writes a key of kind 14 (see zz_contracts_c15_verif.go)
 //@   ensures [c15-fail] err != nil ==> *txn == old(*txn) -- every error return precedes the Set, or is the Set's own error
+//@   ensures [db] badger.txndb(*txn) == old(badger.txndb(*txn)) -- the transaction stays attached to its DB (needed by NewTransaction/Commit style callers: C15)
 //@ assume func writeCustodianNodes
 //@   modifies *txn
 //@   ensures forall k mathint :: {badger.kvget(*txn, k)} keykind(k) == 2 ==> badger.kvget(*txn, k) == old(badger.kvget(*txn, k))
 //@   ensures [c15-frame] forall k mathint :: {badger.kvget(*txn, k)} keykind(k) != 15 ==> badger.kvget(*txn, k) == old(badger.kvget(*txn, k)) -- C15: its single Set writes a key of kind 15 (see zz_contracts_c15_verif.go)
 //@   ensures [c15-fail] err != nil ==> *txn == old(*txn) -- every error return precedes the Set, or is the Set's own error
+//@   ensures [db] badger.txndb(*txn) == old(badger.txndb(*txn)) -- the transaction stays attached to its DB (needed by NewTransaction/Commit style callers: C15)
 //@ assume func writeWithdrawalClaim
 //@   modifies *txn
 //@   ensures forall k mathint :: {badger.kvget(*txn, k)} keykind(k) == 2 ==> badger.kvget(*txn, k) == old(badger.kvget(*txn, k))
 //@   ensures [c15-frame] forall k mathint :: {badger.kvget(*txn, k)} keykind(k) != 16 ==> badger.kvget(*txn, k) == old(badger.kvget(*txn, k)) -- C15: its single Set writes a key of kind 16 (see zz_contracts_c15_verif.go)
 //@   ensures [c15-fail] err != nil ==> *txn == old(*txn) -- every error return precedes the Set, or is the Set's own error
+//@   ensures [db] badger.txndb(*txn) == old(badger.txndb(*txn)) -- the transaction stays attached to its DB (needed by NewTransaction/Commit style callers: C15)
 
 //@ func writeUTXO
 //@   trustpre PayloadHash   -- its precondition (payload well-formedness) belongs to C06; irrelevant to the ghost-key binding proved here
@@ -112,6 +119,8 @@ package storage
 //@       keykind(k) == 2 || k == UK(utxo.Hash, utxo.Index) || keykind(k) == 14 || keykind(k) == 15 || keykind(k) == 16
 //@   ensures [c15-utxo] err == nil ==> HasUtxo(*txn, utxo.Hash, utxo.Index)
 //@   ensures [c15-hash] old(ver.hash.HasValue()) ==> ver.hash == old(ver.hash)
+//@   ensures [db] badger.txndb(*txn) == old(badger.txndb(*txn)) -- the transaction stays attached to its DB (needed by NewTransaction/Commit style callers: C15)
+//@   loop 0 invariant [db] badger.txndb(*txn) == old(badger.txndb(*txn))
 //@   loop 0 invariant [bound] forall j int :: {utxo.Keys[j]} 0 <= j && j <= rangeindex ==> GhostOf(*txn, *utxo.Keys[j]) == kvval(utxo.Hash) || (GhostException(utxo.Hash) && GhostOf(*txn, *utxo.Keys[j]) != 0)
 //@   loop 0 invariant [step] GhostStep(old(*txn), *txn, utxo.Hash)
 
